@@ -137,7 +137,7 @@ def cfg_C05(tier, rng):
 
 
 def cfg_C13(tier, rng):
-    k = 12 if tier == QUICK else 120
+    k = 12 if tier == QUICK else 40
     charts = gc.family_f3(rng, k, nmin=3, nmax=5, tmin=3, tmax=6, nev=2, max_oracle=1, time_guards=True)
     charts += gc.family_f3(rng, max(4, k // 3), nmin=3, nmax=5, tmin=3, tmax=5, nev=2, max_oracle=1, time_guards=True,
                            contracts=True)      # after() / idle() inside post-conditions and invariants
@@ -148,7 +148,7 @@ def cfg_C13(tier, rng):
     charts += gc.family_idle(rng, 6 if tier == QUICK else 50)
     return [dict(name='time', charts=charts,
                  consts=dict(MaxQ=1, MaxClk=4 if tier == QUICK else 5, Delays={0, 1}, Advances={1, 2},
-                             MaxLevel=8 if tier == QUICK else 10),
+                             MaxLevel=8 if tier == QUICK else 9),
                  variants=[dict(variant='api', shadow=True), dict(variant='api', epoch=EPOCH)],
                  jobs_for=(lambda ci, h, r: [[dict(variant='api', shadow=True), dict(variant='api', epoch=EPOCH)][(ci + len(h)) % 2]])
                  if tier == QUICK else None,
@@ -197,14 +197,14 @@ def thin(charts, rng, keep_trans=5):
 
 
 def cfg_C08(tier, rng):
-    k = 90 if tier == QUICK else 800
+    k = 90 if tier == QUICK else 250
     base = thin(_sub(gc.family_f1(4 if tier == QUICK else 5), k, rng), rng, 5)
     charts = with_contracts(base, rng)
     rich = gc.family_f3(rng, 10 if tier == QUICK else 80, nmin=3, nmax=5, tmin=3, tmax=5, nev=2,
                         max_oracle=1, contracts=True)
     ship = shipped(need=lambda c: sum(c['spre']) + sum(c['spost']) + sum(c['sinv']) > 0, max_oracle=3)
     return [dict(name='contracts', charts=charts + rich + ship,
-                 consts=dict(MaxQ=1, MaxCFail=12 if tier == QUICK else 16, MaxLevel=5 if tier == QUICK else 7),
+                 consts=dict(MaxQ=1, MaxCFail=12 if tier == QUICK else 14, MaxLevel=5 if tier == QUICK else 6),
                  variants=[dict(variant='api', shadow=True, device=True)],
                  random=dict(count=150 if tier == QUICK else 1500, length=14, pfail=0.3,
                              family=lambda r, kk: gc.family_f3(r, kk, nmin=5, nmax=8, contracts=True)))]
@@ -580,6 +580,11 @@ def run_stage(prop, tier, seed, stage, rng):
             continue
         for kw in stage['variants']:
             jobs.append((e['ci'], h, dict(kw), False))
+    # bound the work (and the memory) of one stage: beyond the cap, a seeded sample of the explored edges is replayed
+    cap = int(os.environ.get('VERIF_EDGE_CAP', '200000' if tier == QUICK else '300000'))
+    out['edges_explored'] = len(jobs)
+    if len(jobs) > cap:
+        jobs = random.Random(seed * 31 + len(jobs)).sample(jobs, cap)
     nedge_jobs = len(jobs)
     # code side: seeded random drivers on larger charts (appended to the chart list)
     rd = stage.get('random')
